@@ -112,6 +112,16 @@ class C03(Suite):
                                  "vals": [lg.rand_val(rng, ty) for _ in range(ln)]})
                     reqs.append({"op": "rt", "path": [["s", name]], "n": ln})
             yield {"budget": 488, "tags": tags, "reqs": reqs, "via_main": True}
+        # tags of one type and length at different Attributes of one Instance, configured through main(): separate arrays
+        for ty, ln in (("DINT", 4), ("INT", 1), ("REAL", 3)):
+            tags = [{"name": "A", "type": ty, "len": ln, "addr": [0x99, 1, 1]}, {"name": "B", "type": ty, "len": ln, "addr": [0x99, 1, 2]},
+                    {"name": "C", "type": ty, "len": ln, "addr": [0x99, 2, 1]}]
+            reqs = []
+            for j, t in enumerate(tags):
+                reqs.append({"op": "wt", "path": [["s", t["name"]]], "ty": lc.TYPES[ty], "n": ln,
+                             "vals": [lg.rand_val(rng, ty) for _ in range(ln)]})
+            reqs += [{"op": "rt", "path": [["s", t["name"]]], "n": ln} for t in tags]
+            yield {"budget": 488, "tags": tags, "reqs": reqs, "via_main": True}
         # more than ten tags: every one is its own array (write all, then read all)
         for k in range(4 if tier == "quick" else 40):
             tags = lg.many_tags(rng)
